@@ -309,8 +309,9 @@ func (r *r1) publicationPass(cands []*types.Var) map[*types.Var]*pubResult {
 				lastWrite int
 			}
 			per := map[*types.Var]*st{}
-			var recvSoFar []*types.Var
+			recvSoFar := append([]*types.Var(nil), x.recvd...)
 			election := false
+			rmw := map[*types.Var]bool{} // locals holding the result of an atomic Swap/CompareAndSwap
 			fresh := map[types.Object]bool{}
 			for o := range x.fresh {
 				fresh[o] = true
@@ -321,6 +322,11 @@ func (r *r1) publicationPass(cands []*types.Var) map[*types.Var]*pubResult {
 				case core.KBranch:
 					if atomicElection(ev.Cond, ev.Frame) {
 						election = true
+					}
+					for v := range rmw {
+						if rmw[v] && mentions(ev.Cond, v, ev.Frame) {
+							election = true
+						}
 					}
 				case core.KCall:
 					// `if x.Swap(true)` evaluates the call before the branch event: look ahead is not
@@ -335,6 +341,7 @@ func (r *r1) publicationPass(cands []*types.Var) map[*types.Var]*pubResult {
 					if !ev.FieldInit {
 						if v := identVar(ev.Lhs, ev.Frame); v != nil && !v.IsField() {
 							fresh[v] = ev.Rhs != nil && ev.RhsIdx < 0 && r.isFresh(ev.Rhs, ev.Frame.Info())
+							rmw[v] = ev.Rhs != nil && ev.RhsIdx < 0 && isAtomicRMW(ev.Rhs, ev.Frame)
 						}
 					}
 				case core.KFuncLitVal:
